@@ -226,7 +226,21 @@ def s2(prog):
         if not pushes:
             raise Broken("%s no longer pushes a value (unmodelled shape)" % fn)
         for c in pushes:
+            from zw import expand_locals
             a = unwrap(c["a"][0])
+            for _ in range(4):
+                # through std::move and through a local that was initialised with the value (`auto v = X.clone (); push (std::move (v))`)
+                if isinstance(a, dict) and a.get("k") == "call" and a.get("fn") in ("move", "forward") and a.get("a"):
+                    a = unwrap(a["a"][0])
+                elif isinstance(a, dict) and a.get("k") == "ctor" and len(a.get("a", [])) == 1 and a.get("cm"):
+                    a = unwrap(a["a"][0])
+                elif isinstance(a, dict) and a.get("k") == "ref" and a.get("d") == "local":
+                    b = unwrap(expand_locals(a, f["body"]))
+                    if b is a or not isinstance(b, dict):
+                        break
+                    a = b
+                else:
+                    break
             ok = False
             # either X.clone() directly, or a call to a source function whose every return is a clone()
             if isinstance(a, dict) and a.get("k") == "call" and a.get("fn") == "clone":
